@@ -23,3 +23,27 @@ func isAtomicRead(in ssa.Instruction) bool {
 	}
 	return strings.HasSuffix(k, ".Load") || strings.HasPrefix(k, "Load")
 }
+
+// isReadOnlyContractCall: the instruction calls a function under a (verified,
+// not trusted) contract whose frame is "modifies nothing".
+func isReadOnlyContractCall(in ssa.Instruction, specs *SpecSet) bool {
+	ci, ok := in.(ssa.CallInstruction)
+	if !ok {
+		return false
+	}
+	callee := ci.Common().StaticCallee()
+	if callee == nil {
+		return false
+	}
+	p, k := calleeKeyOf(callee)
+	sp := specs.Funcs[p+"::"+k]
+	if sp == nil || !sp.HasMod || sp.Flags["trusted"] != "" {
+		return false
+	}
+	for _, m := range sp.Modifies {
+		if strings.TrimSpace(m) != "nothing" && strings.TrimSpace(m) != "" {
+			return false
+		}
+	}
+	return true
+}
